@@ -123,6 +123,17 @@ pub fn gen_solver<VS: HSet>(sink: &mut Sink, prop: &str, thorough: bool, seed: u
     }
     sink.tag("deep_runs_with_a_backjump_across_level_256", crossing as u64);
     sink.notes.push(format!("{} deep runs: 248..255 filler packages decided (after the first layer) (one decision level each) in front of a layered registry, so that conflicts and backjumps straddle decision level 256 ({} of them with a backjump from above 256 to below it)", n_deep, crossing));
+    // package names with a colliding Hash (direct oracles only): layered and random registries
+    if VS::KIND == "range" && matches!(prop, "C01" | "C02" | "C05" | "C06" | "C17") {
+        let n_weak = (n_random / 8).max(200);
+        for i in 0..n_weak {
+            let reg = if i % 2 == 0 { layered_registry::<pubgrub::Range<u32>>(&mut rng, &[1, 3, 5]) } else { random_registry::<pubgrub::Range<u32>>(&mut rng, &[1, 3, 5]) };
+            let rvs = reg.versions("root");
+            let rv = if rvs.is_empty() { 1 } else { rvs[rng.below(rvs.len() as u64) as usize] };
+            sink.push(crate::eval::eval_line(&format!("weak|{}|{}|{}", reg.to_text(), rv, i % 3 % 2)));
+        }
+        sink.notes.push(format!("{} runs over package names whose Hash collides (only the parity of the length is hashed)", n_weak));
+    }
     for i in 0..n_random {
         let reg = if i % 12 == 11 {
             big_registry::<VS>(&mut rng, &versions)
